@@ -147,7 +147,7 @@ def make_text(rng):
         elif r < 0.62 and parts:
             parts.append(parts[rng.randrange(len(parts))])
             kinds.add("repeat")
-        elif r < 0.68:
+        elif r < 0.67:
             # same assignment, other spelling
             ver = rng.choice("23")
             p_, m, s = V.rand_vector(rng, ver)
@@ -155,6 +155,12 @@ def make_text(rng):
             parts.append(rng.choice([" ", "\n", ", "]))
             parts.append(V.spell(p_, m, "shuffle", rng))
             kinds.add("respelled-repeat")
+        elif r < 0.70:
+            # v3-shaped vector whose minor version is a NON-ASCII digit (\d and int() accept
+            # such characters): not a valid vector, must not be returned
+            p_, m, s = V.rand_vector(rng, "3")
+            parts.append("CVSS:3." + rng.choice("\u0660\u0661\uff10\uff11\u0966\u0967\u00b9\u2460\u0031\u0030") + s[8:])
+            kinds.add("unicode-digit-minor-version")
         elif r < 0.72:
             # mandatory metric missing / duplicate
             ver = rng.choice("23")
